@@ -433,6 +433,13 @@ lzma_index_prealloc(lzma_index *i, lzma_vli records)
 	if (records > PREALLOC_MAX)
 		records = PREALLOC_MAX;
 
+	// If there is nothing to preallocate (the Index decoder is decoding
+	// an Index with no Records), keep the default. With prealloc == 0
+	// a later lzma_index_append() would allocate a group with no space
+	// for Records and write past the end of the allocation.
+	if (records == 0)
+		records = INDEX_GROUP_SIZE;
+
 	i->prealloc = (size_t)(records);
 	return;
 }
